@@ -16,6 +16,7 @@ import (
 	"hash/fnv"
 	"os"
 	"path/filepath"
+	"runtime"
 	"runtime/debug"
 	"sort"
 	"strconv"
@@ -398,6 +399,19 @@ func trimStack(b []byte) string {
 
 // eval runs one case and handles the bookkeeping of a failure. It returns the
 // failure if it is a violation (i.e. not a listed known finding).
+// starved reports whether the machine runs far more work than it has processors for.
+func starved() bool {
+	b, err := os.ReadFile("/proc/loadavg")
+	if err != nil {
+		return false
+	}
+	var l1 float64
+	if _, err := fmt.Sscanf(string(b), "%f", &l1); err != nil {
+		return false
+	}
+	return l1 > 1.5*float64(runtime.NumCPU())
+}
+
 func (p *Prop[C]) eval(t testing.TB, c C) *Failure {
 	p.record(t, c)
 	t0 := time.Now()
@@ -409,8 +423,11 @@ func (p *Prop[C]) eval(t testing.TB, c C) *Failure {
 	// On a starved machine (load 80+ on 16 cores was observed) such a wait can expire although the
 	// library is right; a time budget that is hit means "inconclusive", never a violation. The
 	// case is a pure function of its value, so it is run again, up to two more times: a defect
-	// fails every time and is reported, a stall is counted as a discarded case with a note.
-	if time.Since(t0) > 1500*time.Millisecond && os.Getenv("VERIF_NO_CONFIRM") == "" {
+	// fails every time and is reported, a stall is counted as a discarded case with a note. This is
+	// done only while the machine IS starved (1-minute load average above 1.5 x the number of CPUs):
+	// otherwise a failure that does not reproduce is a schedule-dependent failure of the library and
+	// is reported as before.
+	if time.Since(t0) > 1500*time.Millisecond && os.Getenv("VERIF_NO_CONFIRM") == "" && starved() {
 		for i := 0; i < 2; i++ {
 			time.Sleep(300 * time.Millisecond)
 			if f2 := p.RunProtected(c); f2 == nil {
